@@ -85,4 +85,10 @@ def api : Full → ApiOut
     else if nerr > 0 then .status false                       -- store-reported errors: codes.Internal
     else .resp (ids.map (·.1)) (protoDocs ids.length docs) false total
 
+/-- what the client receives over gRPC: the server's recover interceptor (`grpcutil.RecoverUnaryInterceptor`, installed by
+    `initServer`) turns a panic of the handler into `codes.Internal` -/
+def overWire : ApiOut → ApiOut
+  | .panic => .status false
+  | x => x
+
 end SV.ProxyRead
